@@ -137,10 +137,17 @@ func (b *trzszBuffer) readLine(mayHasJunk bool, timeout <-chan time.Time) ([]byt
 	}
 }
 
+// the size of a binary block comes from the peer, so only a limited amount of
+// memory is reserved in advance, the buffer grows as the data really arrives.
+const kMaxBinaryPrealloc = 10 * 1024 * 1024
+
 func (b *trzszBuffer) readBinary(size int, timeout <-chan time.Time) ([]byte, error) {
+	if size < 0 {
+		return nil, simpleTrzszError("Invalid binary size: %d", size)
+	}
 	b.readBuf.Reset()
 	if b.readBuf.Cap() < size {
-		b.readBuf.Grow(size)
+		b.readBuf.Grow(minInt(size, kMaxBinaryPrealloc))
 	}
 	b.timeout = timeout
 	b.newTimeout = nil
